@@ -164,7 +164,13 @@ func runC01(toks []string) Result {
 		if p {
 			return Result{Obs: "panic", Oracle: "na"}
 		}
-		pobs, back, consumed := parseOne(b)
+		// parse the serialization followed by a sentinel value: what follows must be left untouched
+		sobs, vals, _ := streamOutcome([][]byte{append(append([]byte{}, b...), ":7\r\n"...)}, 4)
+		var back *Node
+		if len(vals) > 0 {
+			back = vals[0]
+		}
+		sentinelOK := len(vals) == 2 && vals[1].equal(&Node{Kind: 'i', P: []byte("7")})
 		re := "none"
 		var reb []byte
 		if back != nil {
@@ -176,7 +182,7 @@ func runC01(toks []string) Result {
 				re = hx(reb)
 			}
 		}
-		obs := fmt.Sprintf("enc=%s back=%s reenc=%s", hx(b), pobs, re)
+		obs := fmt.Sprintf("enc=%s back=%s reenc=%s", hx(b), sobs, re)
 		oracle := "na"
 		tags := treeTags(t)
 		if t.lineSafe() {
@@ -186,11 +192,11 @@ func runC01(toks []string) Result {
 			case !bytes.Equal(b, want):
 				oracle = "fail:serialization differs from RESP2 reference encoding"
 			case back == nil:
-				oracle = "fail:own serialization does not parse back (" + pobs + ")"
+				oracle = "fail:own serialization does not parse back (" + sobs + ")"
 			case !back.equal(t):
 				oracle = "fail:decoded value differs from the encoded one"
-			case consumed != len(b):
-				oracle = "fail:parser consumed " + strconv.Itoa(consumed) + " of " + strconv.Itoa(len(b)) + " bytes"
+			case !sentinelOK:
+				oracle = "fail:the value following the serialization was not left intact (" + sobs + ")"
 			case !bytes.Equal(reb, b):
 				oracle = "fail:re-serialization differs from input bytes"
 			default:
